@@ -115,7 +115,7 @@ PROPS['C10']['quick_first_variant_only'] = True
 PROPS['C10']['skip_vacuity'] = True
 
 _p('C13', 'other',
-   'Contracts on the complex / block matrix adapters\' row iterators and unblock_matrix where present (loop-free parts proved, loops bounded); mixed precision: builtin spmv / residual accumulate the row sum in a type of at least the precision of the result vector (precision ranks of the template arguments are symbolic ghost inputs; proved).',
+   'Contracts on the complex / block matrix adapters\' row iterators and unblock_matrix where present (loop-free parts proved, loops bounded); mixed precision: builtin spmv / residual accumulate the row sum in a type of at least the precision of the result vector (precision ranks of the template arguments are symbolic ghost inputs; proved); make_block_solver forwards the caller\'s matrix and the block views of rhs / x to the wrapped solver exactly once and returns its result (call-level, proved).',
    'Solutions through the wrappers, mixed precision actually reaching 1e-8 (a floating-point convergence statement) and the hybrid backend are not decided.',
    TECH_BOUNDED, ['adapter row iterators reproduce the scalar entries', 'row sums of spmv / residual are not rounded to a lower-precision matrix type'], ['wrapper solves', 'mixed precision convergence', 'hybrid backend'],
    'DESIGN.md section 6 (C13)')
